@@ -305,3 +305,10 @@ func identFromCreds(c *types.NodeCredentials) *Ident {
 	ep, _ := ecdh.X25519().NewPrivateKey(c.EncryptionPrivateKeyBytes)
 	return &Ident{Name: "node", Priv: priv, Pub: priv.Public().(ed25519.PublicKey), Pkix: c.CertificatePublicKeyPkix, KeyId: keyID(c.CertificatePublicKeyPkix), EncPriv: ep, EncPub: ep.PublicKey().Bytes(), Nonce: c.RegistrationNonce}
 }
+
+// detMarshal marshals with deterministic map ordering: Struct fields are a proto map, whose wire order Go randomises
+// per call, and the harness must not let byte-level faults depend on that.
+func detMarshal(m proto.Message) []byte {
+	b, _ := proto.MarshalOptions{Deterministic: true}.Marshal(m)
+	return b
+}
